@@ -111,6 +111,7 @@ type dVariant struct {
 	Reps   int    `json:"reps"`   // repeated marshals
 	// EmptyTok: the token that stands for the empty id inside to-many relationships ("" = none does)
 	EmptyTok string `json:"emptytok"`
+	Query    int    `json:"query"` // query string of the request URL
 }
 
 type dCase struct {
@@ -174,6 +175,11 @@ func (v dVariant) toks(ids []string, to1 bool) []string {
 	}
 	return out
 }
+
+// docQueries: what the request URL may carry besides the path; all of it ends up in the self link
+var docQueries = []string{"", "", "?page%5Bsize%5D=2&page%5Bnumber%5D=1",
+	"?page%5Bcursor%5D=c&page%5Bafter%5D=a&page%5Bbefore%5D=b&page%5Bsize%5D=3&page%5Bx%5D=d&page%5By%5D=e",
+	"?sort=-a,n&filter=lbl", "?include=o,m&sort=id"}
 
 var metaClasses = []string{``, `{}`, `{"s":"x"}`, `{"i":1}`, `{"f":1.5}`, `{"b":true}`, `{"n":null}`,
 	`{"o":{"k":[1,"two",{"z":null}]}}`, `{"a":[]}`, `{"big":12345678901234567890,"e":"é<>&"}`}
@@ -339,6 +345,7 @@ func (w *docWorld) build(d dDoc) (*jsonapi.Document, *jsonapi.URL, []jsonapi.Res
 	if d.Kind == "one" || d.Kind == "ident" {
 		raw = "/t1/x"
 	}
+	raw += docQueries[w.v.Query%len(docQueries)]
 	url, err := jsonapi.NewURLFromRaw(w.schema, raw)
 	must(err)
 	url.Params.Fields = map[string][]string{}
@@ -1016,7 +1023,7 @@ func docMain(args []string) {
 		}
 		v := dVariant{Impl: []string{"soft", "wrap"}[rng.Intn(2)], Shift: rng.Intn(len(nonBool)), Table: rng.Intn(3),
 			Prefix: prefixes[rng.Intn(len(prefixes))], Meta: rng.Intn(len(metaClasses)), IDMap: rng.Intn(len(idMaps)), Reps: *reps,
-			NoFrom: rng.Intn(3) == 0, EmptyTok: []string{"", "", "", "v", "u"}[rng.Intn(5)]}
+			NoFrom: rng.Intn(3) == 0, EmptyTok: []string{"", "", "", "v", "u"}[rng.Intn(5)], Query: rng.Intn(len(docQueries))}
 		if d.Coll == "wrapcol" {
 			v.Impl = "wrap"
 		}
